@@ -316,47 +316,73 @@ _typed_strings = st.sampled_from(["x", "5", "-91", "181", "2020", "2020-13-01", 
 _any_content = st.one_of(st.none(), _typed_strings, _unicode)
 
 
+_attr_cache = {}
+_attr_vals = st.one_of(st.text(st.characters(blacklist_categories=("Cs",)), max_size=6),
+                       st.sampled_from(["document", "system", "allowFirst", "denyFirst", "x", ""]))
+_attr_odd_keys = st.text(st.characters(blacklist_categories=("Cs",)), min_size=1, max_size=4)
+
+
 def _attrs_for_name(name):
-    rn = R.node_mappings.get(name)
-    declared = sorted(R.rules_dict[rn][0]) if rn in R.rules_dict else []
-    keys = st.sampled_from(declared + ["id", "system", "scope", "lang", "foreign", "xml:lang"]) | st.text(
-        st.characters(blacklist_categories=("Cs",)), min_size=1, max_size=4)
-    vals = st.one_of(st.text(st.characters(blacklist_categories=("Cs",)), max_size=6),
-                     st.sampled_from(["document", "system", "allowFirst", "denyFirst", "x", ""]))
-    return st.dictionaries(keys, vals, max_size=3)
+    r = _attr_cache.get(name)
+    if r is None:
+        rn = R.node_mappings.get(name)
+        declared = sorted(R.rules_dict[rn][0]) if rn in R.rules_dict else []
+        keys = st.sampled_from(declared + ["id", "system", "scope", "lang", "foreign", "xml:lang"]) | _attr_odd_keys
+        r = _attr_cache[name] = st.dictionaries(keys, _attr_vals, max_size=3)
+    return r
 
 
 _ns_decl = st.dictionaries(st.sampled_from(["p", "q", "eml"]), st.sampled_from(["urn:1", "urn:2", "http://x/y"]),
                            max_size=2)
 _extras = st.dictionaries(st.sampled_from(["p:k", "q:k", "xml:lang", "xsi:type"]), st.text(max_size=4), max_size=2)
+_names_cache = []
 
 
-@st.composite
-def _arb_node(draw, children):
-    name = draw(st.one_of(st.sampled_from(_known_names()), st.sampled_from(_known_names()), _odd_names))
+def _name_strategy():
+    if not _names_cache:
+        known = st.sampled_from(_known_names())
+        _names_cache.append(st.one_of(known, known, _odd_names))
+    return _names_cache[0]
+
+
+_tail = st.one_of(_typed_strings, _unicode)
+_small = st.integers(0, 4)
+
+
+def _draw_node(draw):
+    name = draw(_name_strategy())
     sp = {"n": name}
-    c = draw(_any_content)
-    if c is not None:
-        sp["c"] = c
-    if draw(st.integers(0, 3)) == 0:
-        sp["t"] = draw(st.one_of(_typed_strings, _unicode))
-    a = draw(_attrs_for_name(name))
-    if a:
-        sp["a"] = a
-    if draw(st.integers(0, 4)) == 0:
+    flags = draw(st.integers(0, 255))
+    if flags & 3:
+        c = draw(_any_content)
+        if c is not None:
+            sp["c"] = c
+    if flags & 12 == 12:
+        sp["t"] = draw(_tail)
+    if flags & 16:
+        a = draw(_attrs_for_name(name))
+        if a:
+            sp["a"] = a
+    if flags & 96 == 96:
         sp["x"] = draw(_extras)
-    if draw(st.integers(0, 4)) == 0:
+    if flags & 128 and flags & 1:
         sp["ns"] = draw(_ns_decl)
-        if sp["ns"] and draw(st.booleans()):
+        if sp["ns"] and flags & 2:
             sp["p"] = sorted(sp["ns"])[0]
-    kids = draw(children)
-    if kids:
-        sp["k"] = kids
     return sp
 
 
-def arb_spec(max_leaves=20):
-    return st.recursive(_arb_node(st.just([])), lambda ch: _arb_node(st.lists(ch, max_size=4)), max_leaves=max_leaves)
+@st.composite
+def arb_spec(draw, max_leaves=20):
+    """arbitrary tree: random recursive-attachment shape (wide, deep and mixed), every field populated at random"""
+    n = draw(st.integers(1, max(1, max_leaves)))
+    nodes_ = [_draw_node(draw)]
+    for i in range(1, n):
+        parent = nodes_[draw(_int(i))]
+        child = _draw_node(draw)
+        parent.setdefault("k", []).append(child)
+        nodes_.append(child)
+    return nodes_[0]
 
 
 @st.composite
